@@ -144,6 +144,10 @@ func releaseKind(p *Program, in ssa.Instruction, key string) string {
 				}
 			}
 		}
+	case *ssa.Go:
+		if _, ok := goWaitUnlock(x, key); ok {
+			return "afterfunc" // a goroutine that waits for a duration and then unlocks: the same construct as time.AfterFunc(d, Unlock)
+		}
 	case *ssa.Defer:
 		if op, ok := mutexOp(x); ok && op.kind == "unlock" && op.key == key {
 			return "defer-unlock"
@@ -158,6 +162,75 @@ func releaseKind(p *Program, in ssa.Instruction, key string) string {
 		}
 	}
 	return ""
+}
+
+// waitOf: the instruction blocks for a duration and nothing else: time.Sleep(d),
+// or a plain receive from time.After(d) / time.NewTimer(d).C; returns d.
+func waitOf(in ssa.Instruction) (ssa.Value, bool) {
+	switch x := in.(type) {
+	case *ssa.Call:
+		if funcIs(calleeObj(x), "time", "", "Sleep") {
+			return x.Common().Args[0], true
+		}
+	case *ssa.UnOp:
+		if x.Op == token.ARROW {
+			if t := timerOf(x.X); t != nil && t.Kind == "after" {
+				return t.Arg, true
+			}
+		}
+	}
+	return nil, false
+}
+
+// goWaitUnlock: g starts a goroutine that, on every path, waits once for a
+// duration and then unlocks key exactly once, touching the mutex in no other
+// way; returns the duration value (resolved to the go statement's frame).
+func goWaitUnlock(g *ssa.Go, key string) (ssa.Value, bool) {
+	gf := goCallee(g)
+	if gf == nil || gf.Blocks == nil || !goroutineUnlocksOnce(gf, key) || mutexOpsIn(gf, key) != 1 {
+		return nil, false
+	}
+	var dur ssa.Value
+	min, max := pathCount(gf.Blocks[0], func(in ssa.Instruction) bool {
+		if d, ok := waitOf(in); ok {
+			dur = d
+			return true
+		}
+		return false
+	}, nil)
+	if min != 1 || max != 1 || dur == nil {
+		return nil, false
+	}
+	// the wait precedes the unlock
+	okOrder := true
+	instrsOf(gf, func(in ssa.Instruction) {
+		if cl, ok := in.(*ssa.Call); ok {
+			if op, ok := mutexOp(cl); ok && op.kind == "unlock" && op.key == key {
+				dominated := false
+				instrsOf(gf, func(w ssa.Instruction) {
+					if _, isW := waitOf(w); isW && instrDominates(w, in) {
+						dominated = true
+					}
+				})
+				if !dominated {
+					okOrder = false
+				}
+			}
+		}
+	})
+	if !okOrder {
+		return nil, false
+	}
+	// a parameter of the goroutine's function: the argument of the go statement
+	d := resolveFree(unspill(dur))
+	if prm, ok := d.(*ssa.Parameter); ok && prm.Parent() == gf {
+		for i, fp := range gf.Params {
+			if fp == prm && i < len(g.Common().Args) {
+				d = g.Common().Args[i]
+			}
+		}
+	}
+	return d, true
 }
 
 // unlocksOnce: f is (a bound method value of) sync.Mutex.Unlock on the mutex key.
@@ -377,8 +450,8 @@ func checkC13(c *Check, p *Program) {
 			gn := FuncName(gf)
 			// the sleep precedes the unlock on every path from err == nil && pause > 0
 			isSleep := func(in ssa.Instruction) bool {
-				cl, ok := in.(*ssa.Call)
-				return ok && funcIs(calleeObj(cl), "time", "", "Sleep") && isLoadOf(cl.Common().Args[0], a.pause)
+				d, ok := waitOf(in)
+				return ok && isLoadOf(resolveFree(unspill(d)), a.pause)
 			}
 			isUnlock := func(in ssa.Instruction) bool {
 				cl, ok := in.(*ssa.Call)
@@ -468,6 +541,9 @@ func checkC13(c *Check, p *Program) {
 			okP5 := true
 			why := ""
 			instrsOf(gf, func(in ssa.Instruction) {
+				if _, isWait := waitOf(in); isWait {
+					return // waiting for a timer is time
+				}
 				if d := blockingDesc(in); d != "" && d != "time.Sleep" {
 					okP5, why = false, d+" at "+p.InstrPos(in)
 				}
@@ -500,10 +576,10 @@ func checkC13(c *Check, p *Program) {
 			op, ok := mutexOp(cl)
 			return ok && op.kind == "lock" && op.key == a.muKey
 		}
-		var after *ssa.Call
+		var after ssa.Instruction
 		isAfter := func(in ssa.Instruction) bool {
 			if releaseKind(p, in, a.muKey) == "afterfunc" {
-				after = in.(*ssa.Call)
+				after = in
 				return true
 			}
 			return false
@@ -533,17 +609,26 @@ func checkC13(c *Check, p *Program) {
 }
 
 // checkBusyWait: w = min(msg.WaitTime + nonneg, 50ms)
-func checkBusyWait(c *Check, p *Program, a *routerAnchors, after *ssa.Call) {
-	w := after.Common().Args[0]
-	waitF := p.Field("knx/knxnet", "RoutingBusy", "WaitTime")
-	maxC, _ := p.Pkg("knx").Scope().Lookup("maxWaitTime").(*types.Const)
-	pos := p.InstrPos(after)
-	if maxC == nil || waitF == nil {
-		c.Fail("C13.P3", "anchors maxWaitTime / RoutingBusy.WaitTime", pos, "not found")
+func checkBusyWait(c *Check, p *Program, a *routerAnchors, after ssa.Instruction) {
+	var w ssa.Value
+	switch x := after.(type) {
+	case *ssa.Call:
+		w = x.Common().Args[0]
+	case *ssa.Go:
+		w, _ = goWaitUnlock(x, a.muKey)
+	}
+	if w == nil {
+		c.Fail("C13.P3", "busy wait duration", p.InstrPos(after), "the duration of the wait cannot be identified")
 		return
 	}
-	maxV, _ := constant.Int64Val(maxC.Val())
-	c.Decide(maxV == 50_000_000, "C13.P3", "maxWaitTime is 50 ms", p.Pos(maxC.Pos()), "50 * time.Millisecond", fmt.Sprintf("maxWaitTime is %d ns", maxV))
+	waitF := p.Field("knx/knxnet", "RoutingBusy", "WaitTime")
+	pos := p.InstrPos(after)
+	if waitF == nil {
+		c.Fail("C13.P3", "anchor RoutingBusy.WaitTime", pos, "not found")
+		return
+	}
+	// the cap the property names; whatever the source calls its constant, the clamp below must use this value
+	const maxV = int64(50_000_000)
 	// upper clamp: w is a phi; constant edges <= max, other edges guarded by value <= max
 	clampOK := true
 	sawWait := false
@@ -868,7 +953,7 @@ func checkC14(c *Check, p *Program) {
 					return false
 				}
 				ia, ok := st.Addr.(*ssa.IndexAddr)
-				return ok && ia.X == ssa.Value(mk)
+				return ok && (ia.X == ssa.Value(mk) || resolveCell(ia.X) == ssa.Value(mk))
 			}
 			// count along one iteration: from header through body back to header
 			min, max := iterCount(lp, isRemove)
@@ -911,8 +996,18 @@ func checkC14(c *Check, p *Program) {
 		if okGo {
 			has := false
 			for _, arg := range goes[0].Common().Args {
-				if arg == ssa.Value(mk) {
+				if arg == ssa.Value(mk) || resolveCell(arg) == ssa.Value(mk) {
 					has = true
+				}
+			}
+			// or captured by the goroutine's closure
+			if mc, ok := goes[0].Common().Value.(*ssa.MakeClosure); ok {
+				for _, bd := range mc.Bindings {
+					if cell, ok := bd.(*ssa.Alloc); ok && !cellEscapes(cell) {
+						if sts := cellStores(cell); len(sts) == 1 && sts[0].Val == ssa.Value(mk) {
+							has = true
+						}
+					}
 				}
 			}
 			okGo = has && !inAnyLoop(goes[0].Block())
@@ -939,7 +1034,7 @@ func checkC14(c *Check, p *Program) {
 				nCall++
 				arg := callArgs(call)[0]
 				if u, ok := arg.(*ssa.UnOp); ok && u.Op == token.MUL {
-					if ia, ok := u.X.(*ssa.IndexAddr); ok && ia.X == ssa.Value(prm) {
+					if ia, ok := u.X.(*ssa.IndexAddr); ok && ((prm != nil && ia.X == ssa.Value(prm)) || (mk != nil && resolveCell(ia.X) == ssa.Value(mk))) {
 						okArg = true
 						if ph, ok := ia.Index.(*ssa.BinOp); ok && ph.Op == token.ADD {
 							if k, ok := constInt(ph.Y); ok && k == 1 {
